@@ -326,3 +326,112 @@ class TransformedInit(Contract):
                   "random_state is stored as given (a seed is not turned into a live generator whose state would advance between calls)")
         cx.oblige("post.init.n_dim", f.get("n_dim") == 2, "post")
         cx.oblige("post.init.no_cached_sample", f.get("_sample", "ABSENT") is None, "post")
+
+
+@contract(TM + ".empirical_cdf", ["C16", "C19"], [dict(sample="given", cache="empty"), dict(sample="given", cache="filled"), dict(sample="none", cache="filled")], name="transformed.empirical_cdf.frame")
+class TransformedEcdfFrame(Contract):
+    """empirical_cdf(x, sample): a supplied sample is USED, never kept - the model's own cached Monte-Carlo sample (and
+    every other attribute) is left as it was; without a supplied sample a filled cache is used without drawing again.
+    (Verified up to the counting itself, which is plain NumPy broadcasting outside the modelled subset.)"""
+
+    def case_label(self, case):
+        return f"sample={case['sample']},cache={case['cache']}"
+
+    def setup(self, itp, case):
+        from vf.engine.vc import ContractStop
+
+        def stop(itp_, a, k):
+            raise ContractStop("verified up to the counting (np.atleast_2d ... sum): frame clauses only")
+        itp.lib.table["numpy.atleast_2d"] = Builtin("numpy.atleast_2d", stop)
+
+    def inputs(self, itp, case):
+        cx = itp.cx
+        me = self
+        self.draws = []
+
+        class Base(Opaque):
+            type_name = "GlobalHierarchicalModel"
+
+            def getattr_(s, itp_, name):
+                if name == "n_dim":
+                    return 2
+                raise PyRaise("AttributeError", name)
+
+            def call_method(s, itp_, name, args, kwargs):
+                me.draws.append(name)
+                raise PyRaise("AttributeError", name)
+        k, n, nc = cx.sym("k", "int"), cx.sym("n", "int"), cx.sym("n_cached", "int")
+        cx.assume(T.land(T.ge(k, 1), T.ge(n, 1), T.ge(nc, 1)))
+        self.x = sym_array(cx, "x", (k, 2))
+        self.sample = sym_array(cx, "sample", (n, 2)) if case["sample"] == "given" else None
+        self.cached = sym_array(cx, "cached_sample", (nc, 2), owner="arg") if case["cache"] == "filled" else None
+        self.obj = SObj(TM, {"model": Base(), "transform": None, "jacobian": None, "inverse": None, "n_dim": 2, "random_state": None, "_sample": self.cached,
+                             "precision_factor": Fraction(1)}, owner="arg")
+        return [self.obj, self.x], ({"sample": self.sample} if self.sample is not None else {})
+
+    def post(self, itp, case, inp, out):
+        cx = itp.cx
+        cx.oblige("post.reaches_counting", out.outcome == "stopped", "post", f"{out.outcome}: {getattr(out, 'exc', None)} {getattr(out, 'msg', None)}")
+        cx.oblige("frame.model_unchanged", not self.obj.writes and self.obj.fields.get("_sample") is self.cached, "frame",
+                  f"evaluating the empirical cdf leaves the model as it was (wrote {self.obj.writes}); a supplied sample is not kept")
+        cx.oblige("post.no_new_draw", not self.draws, "post", "nothing is drawn when a sample is supplied or cached")
+        if self.sample is not None:
+            cx.oblige("frame.sample", self.sample.buf.writes == 0, "frame")
+
+
+@contract(TM + ".fit", ["C16", "C18", "C09"], [dict(how=h) for h in ("positional", "keyword", "none")], name="transformed.fit")
+class TransformedFit(Contract):
+    """fit(data, fit_descriptions): the base model is fitted to transform(data) with EVERYTHING the caller passed
+    (positionally or by keyword) handed on, so that an ill-formed fit description is rejected by the base model's
+    own checks and a well-formed one is honoured"""
+
+    def case_label(self, case):
+        return f"fit_descriptions={case['how']}"
+
+    def inputs(self, itp, case):
+        cx = itp.cx
+        me = self
+        me.fit_calls = []
+
+        class Base(Opaque):
+            type_name = "GlobalHierarchicalModel"
+
+            def getattr_(s, itp_, name):
+                if name == "n_dim":
+                    return 2
+                raise PyRaise("AttributeError", name)
+
+            def call_method(s, itp_, name, args, kwargs):
+                if name == "fit":
+                    me.fit_calls.append((list(args), dict(kwargs)))
+                    return None
+                raise PyRaise("AttributeError", name)
+        n = cx.sym("n", "int")
+        cx.assume(T.ge(n, 1))
+        self.data = sym_array(cx, "data", (n, 2))
+        self.tdata = sym_array(cx, "transformed_data", (n, 2), owner="call")
+        self.transform = CallRec("transform", lambda itp_, a, k: self.tdata)
+        self.fd = [{"method": "mle"}, {"method": "no_such_method"}]
+        self.obj = SObj(TM, {"model": Base(), "transform": self.transform, "jacobian": None, "inverse": None, "n_dim": 2, "random_state": None, "_sample": None,
+                             "precision_factor": Fraction(1)}, owner="arg")
+        if case["how"] == "positional":
+            return [self.obj, self.data, self.fd], {}
+        if case["how"] == "keyword":
+            return [self.obj, self.data], {"fit_descriptions": self.fd}
+        return [self.obj, self.data], {}
+
+    def post(self, itp, case, inp, out):
+        cx = itp.cx
+        if out.outcome != "return":
+            cx.oblige("post.returns", False, "post", f"raised {out.exc}: {out.msg}")
+            return
+        ok = len(self.fit_calls) == 1 and len(self.transform.calls) == 1
+        cx.oblige("post.one_base_fit", ok, "post", "the base model is fitted once, to the transformed data")
+        if not ok:
+            return
+        a, k = self.fit_calls[0]
+        cx.oblige("post.data_transformed", same_data(cx, self.transform.calls[0][0][0], self.data) and len(a) >= 1 and same_data(cx, a[0], self.tdata), "post")
+        got = a[1] if len(a) > 1 else k.get("fit_descriptions", "ABSENT")
+        want = self.fd if case["how"] != "none" else "ABSENT"
+        cx.oblige("post.fit_descriptions_forwarded", got is want, "post",
+                  "the fit descriptions reach the base model however they were passed (they are checked and honoured there)")
